@@ -673,7 +673,14 @@ func handshakeFamily(c *hl.Ctx, only *HCase) {
 	}
 }
 
+// hsBufs: the buffer sizes of a Dial/Upgrade session.
+type hsBufs struct{ upR, upW, dialR, dialW int }
+
 func oneHandshake(clientComp, serverComp bool, sub string, size, level int, srvAPI string) (key, what string) {
+	return oneHandshakeBufs(clientComp, serverComp, sub, size, level, srvAPI, hsBufs{256, 256, 256, 256})
+}
+
+func oneHandshakeBufs(clientComp, serverComp bool, sub string, size, level int, srvAPI string, bufs hsBufs) (key, what string) {
 	ln := &pipeListener{ch: make(chan net.Conn, 1), closed: make(chan struct{})}
 	var srvRec, cliRec *recConn
 	type srvResult struct {
@@ -691,7 +698,7 @@ func oneHandshake(clientComp, serverComp bool, sub string, size, level int, srvA
 		}
 		emu.Unlock()
 	}
-	up := websocket.Upgrader{ReadBufferSize: 256, WriteBufferSize: 256, EnableCompression: serverComp, Subprotocols: []string{"chat", "other"}}
+	up := websocket.Upgrader{ReadBufferSize: bufs.upR, WriteBufferSize: bufs.upW, EnableCompression: serverComp, Subprotocols: []string{"chat", "other"}}
 	payload := hl.Pattern(size, 77)
 	srv := &http.Server{Handler: http.HandlerFunc(func(w http.ResponseWriter, r *http.Request) {
 		ws, err := up.Upgrade(w, r, nil)
@@ -756,7 +763,7 @@ func oneHandshake(clientComp, serverComp bool, sub string, size, level int, srvA
 	})}
 	go srv.Serve(ln)
 	defer srv.Close()
-	d := websocket.Dialer{ReadBufferSize: 256, WriteBufferSize: 256, EnableCompression: clientComp,
+	d := websocket.Dialer{ReadBufferSize: bufs.dialR, WriteBufferSize: bufs.dialW, EnableCompression: clientComp,
 		NetDial: func(network, addr string) (net.Conn, error) {
 			a, b := net.Pipe()
 			cliRec = &recConn{Conn: a}
@@ -901,7 +908,7 @@ func oneHandshake(clientComp, serverComp bool, sub string, size, level int, srvA
 }
 
 func run(c *hl.Ctx) {
-	c.Rule("E2: for every configuration (sender role x {compression not negotiated, negotiated with the library defaults, negotiated at levels -2/-1/0/1/9 (thorough: all 12) with write compression on and with EnableWriteCompression(false), negotiated but write-disabled} x write buffer {16,125,512,4096} x read buffer {128,4096}): every single message over sizes {0,1,125,126,W-1,W,W+1,2W,2(W+14),2(W+14)+1,65535,65536,65536+W} x {text,binary} x write API {WriteMessage, WriteString, ReadFrom, prepared, JSON, NextWriter with every 2-partition at the class boundaries, 1-byte partition}; every ordered pair (thorough: selected triples) of 11 branch-class messages; the sender's wire is parsed by an independent RFC 6455/7692 parser and the peer Conn reads the sequence back (ReadMessage and 1-byte NextReader reads alternating). Handshake sessions through Dialer.Dial/Upgrader.Upgrade over net.Pipe in all offer/enable/subprotocol combinations, and negotiated sessions x SetCompressionLevel(every level of the alphabet) on both ends x the server answering with {WriteMessage, NextWriter, prepared message}. Settings pairs: on one negotiated connection (client and server sender, W=16; thorough also 125) every ordered pair of messages over (SetCompressionLevel(level) x EnableWriteCompression(on/off) called just before the message) x 7 write APIs x sizes {0, 2(W+14)+1 (thorough: also W+1)}; RSV1 must not appear on a message written while write compression is off and every RSV1 message must inflate to the written payload. Shared prepared message: one PreparedMessage over sizes {0,1,125,126,4095,4096,4097,8221,65536} x {text,binary} written to connections A, B, A, B for every ordered pair of connection options (role x {not negotiated, negotiated defaults, negotiated x level x on/off}); each wire is parsed and read back. A case is non-trivial when all its messages were found on the wire by the independent parser and read back intact by the peer. state = dumped reader/writer state; transition = one message." + negotiationRule + readFromRule + abandonRule)
+	c.Rule("E2: for every configuration (sender role x {compression not negotiated, negotiated with the library defaults, negotiated at levels -2/-1/0/1/9 (thorough: all 12) with write compression on and with EnableWriteCompression(false), negotiated but write-disabled} x write buffer {16,125,512,4096} x read buffer {128,4096}): every single message over sizes {0,1,125,126,W-1,W,W+1,2W,2(W+14),2(W+14)+1,65535,65536,65536+W} x {text,binary} x write API {WriteMessage, WriteString, ReadFrom, prepared, JSON, NextWriter with every 2-partition at the class boundaries, 1-byte partition}; every ordered pair (thorough: selected triples) of 11 branch-class messages; the sender's wire is parsed by an independent RFC 6455/7692 parser and the peer Conn reads the sequence back (ReadMessage and 1-byte NextReader reads alternating). Handshake sessions through Dialer.Dial/Upgrader.Upgrade over net.Pipe in all offer/enable/subprotocol combinations, and negotiated sessions x SetCompressionLevel(every level of the alphabet) on both ends x the server answering with {WriteMessage, NextWriter, prepared message}. Settings pairs: on one negotiated connection (client and server sender, W=16; thorough also 125) every ordered pair of messages over (SetCompressionLevel(level) x EnableWriteCompression(on/off) called just before the message) x 7 write APIs x sizes {0, 2(W+14)+1 (thorough: also W+1)}; RSV1 must not appear on a message written while write compression is off and every RSV1 message must inflate to the written payload. Shared prepared message: one PreparedMessage over sizes {0,1,125,126,4095,4096,4097,8221,65536} x {text,binary} written to connections A, B, A, B for every ordered pair of connection options (role x {not negotiated, negotiated defaults, negotiated x level x on/off}); each wire is parsed and read back. A case is non-trivial when all its messages were found on the wire by the independent parser and read back intact by the peer. state = dumped reader/writer state; transition = one message." + negotiationRule + readFromRule + abandonRule + bigFrameRule)
 	c.Assume(negotiationAssumptions...)
 	c.Assume("compress/flate's reader (used by the independent parser to inflate RSV1 messages) is correct", "SetCompressionLevel/EnableWriteCompression are only called between messages, as their documentation says (subsequent messages)", "mask keys are read from the wire, never predicted", "multi-megabyte messages are represented by 65536+W (thorough: 131072+W)", "the library never fragments below its buffer size, so partitions are chosen at buffer-relative boundaries")
 	cfgs := configs(c.Thorough())
@@ -955,6 +962,7 @@ func run(c *hl.Ctx) {
 	negotiationFamilies(c)
 	readFromFamily(c)
 	abandonFamily(c)
+	bigFrameFamily(c)
 }
 
 func replay(c *hl.Ctx, raw json.RawMessage) {
@@ -986,6 +994,18 @@ func replay(c *hl.Ctx, raw json.RawMessage) {
 			panic(err)
 		}
 		oneAbandon(c, ac)
+	case "bigframe":
+		var bc BFCase
+		if err := json.Unmarshal(raw, &bc); err != nil {
+			panic(err)
+		}
+		oneBigFrame(c, bc)
+	case "bigframe-handshake":
+		var bh BFHCase
+		if err := json.Unmarshal(raw, &bh); err != nil {
+			panic(err)
+		}
+		oneBigFrameHandshake(c, bh)
 	case "raw-client", "raw-server":
 		var nc NegCase
 		if err := json.Unmarshal(raw, &nc); err != nil {
